@@ -137,12 +137,15 @@ fn sweep_reference(s: &Sweep, delay: u16) -> Result<(), String> {
     // sequence of the input that is signed
     let (lo, hi) = match s.kind {
         SweepK::Delayed => (delay as u32, delay as u32 + 144),
-        SweepK::Justice => (0, 144),
+        // a revoked output can be claimed at once and a non-anchors HTLC output has no CSV: nothing
+        // implies a relative lock there, so none is within bounds (a lock would only give the other
+        // side time); with anchors the HTLC outputs carry a one-block CSV
+        SweepK::Justice => (0, 0),
         _ =>
             if s.anchors {
                 (1, 145)
             } else {
-                (0, 144)
+                (0, 0)
             },
     };
     match rel_lock(s.seq) {
@@ -600,7 +603,7 @@ pub fn main(tier: Tier) -> i32 {
     if acc_sweeps == 0 {
         run.vacuous("no sweep was signed");
     }
-    run.assume("sweep envelope: every output wallet-derivable at the presented path or allowlisted; version 2; locktime a height <= max(height, HTLC expiry for a received-HTLC sweep) + 144 or a timestamp in the past; relative lock of the signed input (BIP-68 decoding) within [contest delay, +144] for delayed sweeps, [1,145] for anchor HTLC sweeps, [0,144] otherwise");
+    run.assume("sweep envelope: every output wallet-derivable at the presented path or allowlisted; version 2; locktime a height <= max(height, HTLC expiry for a received-HTLC sweep) + 144 or a timestamp in the past; relative lock of the signed input (BIP-68 decoding) within [contest delay, +144] for delayed sweeps, [1,145] for anchor HTLC sweeps, and no relative lock at all for justice sweeps and non-anchor HTLC sweeps (nothing implies one)");
     run.assume("HTLC transactions: accepted => the supplied redeemscript is the offered / received HTLC script, the implied fee rate under BOLT-3's formula is within the policy range (0 for zero-fee HTLC channels), the transaction's sighash equals that of the BOLT-3 HTLC transaction built by the harness for the negotiated delay and keys, and the signature verifies against it under the node's HTLC key; the outpoint is taken from the request (it cannot be validated there)");
     let _ = t0;
     let cov = json!({
